@@ -343,12 +343,16 @@ def r_pair(ctx):
         blk = flow.block_of(s.stmt)[2]
         idx = [i for i, x in enumerate(blk) if x is s.stmt][0]
         partner = None
-        for x in blk[idx + 1:]:
-            hit = [c for c in appends if common.stmt_of(c) is x and dotted(c.func.value) == want]
-            if hit:
-                partner = hit[0]
-                break
-            if any(isinstance(n, ast.Call) and call_name(n) in (SEND_C, SEND_P) for n in ast.walk(x)):
+        # the tracking append sits in the same block, after the send or before it, with no other send in between
+        for seq in (blk[idx + 1:], list(reversed(blk[:idx]))):
+            for x in seq:
+                hit = [c for c in appends if common.stmt_of(c) is x and dotted(c.func.value) == want and id(c) not in matched]
+                if hit:
+                    partner = hit[0]
+                    break
+                if any(isinstance(n, ast.Call) and call_name(n) in (SEND_C, SEND_P) for n in ast.walk(x)):
+                    break
+            if partner is not None:
                 break
         ok = partner is not None and len(partner.args) == 1 and s.arg is not None and src(partner.args[0]) == src(s.arg)
         if partner is not None:
